@@ -7,6 +7,7 @@
 import XzVerif.Model.Memusage
 import XzVerif.Model.MemusageBuild
 import XzVerif.Model.Memlimit
+import XzVerif.Model.MemlimitPre
 import XzVerif.Model.XzAdjust
 import XzVerif.Lemmas.Memusage
 import XzVerif.Lemmas.MemIndex
@@ -727,5 +728,99 @@ example :
           chains := [(0, [.lzma2 { dict := 67108864, mode := 2, nice := 64, mf := 0x14 }])] } with
      | .ok t mt cs _ _ _ _ => (t, mt, cs.map (fun p => chainDict p.2))
      | .fatal _ _ => (0, true, [])) = (1, false, [some 8388608]) := by decide +kernel
+
+/-! ## Call order: create → lzma_memlimit_set()* → first lzma_code() -/
+
+theorem initLimit_pos (l : Nat) : 1 ≤ initLimit l := by
+  unfold initLimit; split <;> omega
+
+theorem memlimitSet_limit_pos (usage limit v : Nat) (h : 1 ≤ limit) : 1 ≤ (memlimitSet usage limit v).2 := by
+  unfold memlimitSet
+  by_cases hv : v = 0 <;> simp only [hv, ↓reduceIte] <;> split <;> simp <;> omega
+
+theorem applyPre_limit_pos (usage : Nat) : ∀ (pre : List SetTok) (limit : Nat), 1 ≤ limit → 1 ≤ (applyPre usage limit pre).2 := by
+  intro pre
+  induction pre with
+  | nil => intro limit h; simpa [applyPre] using h
+  | cons t rest ih =>
+    intro limit h
+    simp only [applyPre]
+    exact ih _ (memlimitSet_limit_pos usage limit _ h)
+
+/-- `lzma_memlimit_set(strm, v)` on a decoder that has not seen input yet (`usage` = what `lzma_memusage()` reports for a
+    fresh decoder): a value that is at least `usage` (0 counts as 1) becomes THE limit — it is what `lzma_memlimit_get()`
+    returns and what the decoder starts decoding with, whether it lowers or raises the creation-time limit; a smaller value
+    is rejected and the creation-time limit stays. -/
+theorem pre_set_stored (usage limit v : Nat) :
+    (usage ≤ (if v = 0 then 1 else v) → preLimit usage limit [.abs v] = (if v = 0 then 1 else v))
+    ∧ ((if v = 0 then 1 else v) < usage → preLimit usage limit [.abs v] = initLimit limit) := by
+  have h := memconfig_rejects_low usage (initLimit limit) v
+  constructor
+  · intro hv
+    simp only [preLimit, applyPre, SetTok.value, h.2 hv]
+  · intro hv
+    simp only [preLimit, applyPre, SetTok.value, h.1 hv]
+
+/-- `lzma_auto_decoder` before the format is detected: its memconfig callback ("No coder is configured yet") accepts and
+    rejects exactly like every other decoder's with usage LZMA_MEMUSAGE_BASE, and the value it stores in its own
+    `coder->memlimit` is the limit the .xz / .lzma / .lz decoder is created with on the first input byte. -/
+theorem auto_pre_limit_reaches_subdecoder (pre : List SetTok) : ∀ (a : AutoPending),
+    (a.setAll pre).subLimit = (applyPre MEMUSAGE_BASE a.memlimit pre).2 := by
+  induction pre with
+  | nil => intro a; rfl
+  | cons t rest ih =>
+    intro a
+    simp only [AutoPending.setAll, applyPre]
+    rw [ih]
+    have : (a.set (t.value MEMUSAGE_BASE)).2.memlimit = (memlimitSet MEMUSAGE_BASE a.memlimit (t.value MEMUSAGE_BASE)).2 := by
+      simp only [AutoPending.set, memlimitSet]
+      split <;> split <;> rfl
+    rw [this]
+
+theorem autoRunPre_eq (b : Build) (flags limit : Nat) (pre sets : List SetTok) (inp : List UInt8) :
+    autoRunPre b flags limit pre sets inp = autoRun b flags (preLimit MEMUSAGE_BASE limit pre) sets inp := by
+  simp only [autoRunPre, preLimit, auto_pre_limit_reaches_subdecoder]
+
+/-- WHOLE-RUN RESTARTABILITY for the order create → set* → decode, single-threaded .xz decoder: two applications that
+    create the decoder with any limits `l1`, `l2`, make any calls `p1`, `p2` before the first input byte and answer
+    LZMA_MEMLIMIT_ERROR with any scripts `s1`, `s2` get the same result (code, Blocks decoded, bytes consumed, check
+    notifications, coders allocated) unless one of them gave up. In particular a limit RAISED before the first byte to
+    a sufficient amount gives the result of the unlimited run. -/
+theorem pre_sets_run_restartable (b : Build) (flags l1 l2 : Nat) (p1 p2 s1 s2 : List SetTok) (inp : List UInt8) :
+    GaveUp s1 (xzRunPre b flags l1 p1 s1 inp).1 (xzRunPre b flags l1 p1 s1 inp).2
+    ∨ GaveUp s2 (xzRunPre b flags l2 p2 s2 inp).1 (xzRunPre b flags l2 p2 s2 inp).2
+    ∨ (runResult (xzRunPre b flags l1 p1 s1 inp) = runResult (xzRunPre b flags l2 p2 s2 inp)
+        ∧ sameCoders (xzRunPre b flags l1 p1 s1 inp) (xzRunPre b flags l2 p2 s2 inp)) :=
+  memlimit_run_restartable_scripts b flags _ _ s1 s2 inp
+
+/-- The same through `lzma_auto_decoder`, whatever format the first byte selects: the calls made before the format is
+    known are not lost. -/
+theorem pre_sets_run_restartable_auto (b : Build) (flags l1 l2 : Nat) (p1 p2 s1 s2 : List SetTok) (inp : List UInt8) :
+    GaveUp s1 (autoRunPre b flags l1 p1 s1 inp).1 (autoRunPre b flags l1 p1 s1 inp).2
+    ∨ GaveUp s2 (autoRunPre b flags l2 p2 s2 inp).1 (autoRunPre b flags l2 p2 s2 inp).2
+    ∨ (runResult (autoRunPre b flags l1 p1 s1 inp) = runResult (autoRunPre b flags l2 p2 s2 inp)
+        ∧ sameCoders (autoRunPre b flags l1 p1 s1 inp) (autoRunPre b flags l2 p2 s2 inp)) := by
+  rw [autoRunPre_eq, autoRunPre_eq]
+  rcases autoRun_agree b flags _ _ s1 s2 inp with g | g | ⟨hc, hsim, hcons, hdec, hchk⟩
+  · exact Or.inl g
+  · exact Or.inr (Or.inl g)
+  · exact Or.inr (Or.inr ⟨by simp only [runResult, hc, hcons, hdec, hchk], hsim.2.1, hsim.1, hsim.2.2⟩)
+
+/-- A limit LOWERED (or set at all) before the first byte is enforced: at no point of the run are more bytes live than
+    max(LZMA_MEMUSAGE_BASE, the limit in force), where the limit in force starts as the one the pre-input calls left
+    (`preLimit`) and afterwards changes only by accepted `lzma_memlimit_set` answers — for the .xz decoder and, with the
+    auto decoder's own struct as allowance, through `lzma_auto_decoder`. -/
+theorem pre_sets_run_peak (b : Build) (hb : b.Ok) (flags limit : Nat) (pre sets : List SetTok) (inp : List UInt8) :
+    (xzRunPre b flags limit pre sets inp).2.core.heap.peak ≤ max MEMUSAGE_BASE (xzRunPre b flags limit pre sets inp).2.core.memlimit
+    ∧ (autoRunPre b flags limit pre sets inp).2.core.heap.peak
+        ≤ max MEMUSAGE_BASE (autoRunPre b flags limit pre sets inp).2.core.memlimit + b.szAutoDecoder := by
+  refine ⟨memlimit_run_peak b hb flags _ sets inp, ?_⟩
+  rw [autoRunPre_eq]
+  exact (memlimit_run_peak_others b hb flags _ sets inp).2.2
+
+/-- Non-vacuity: created unlimited, `lzma_memlimit_set(1 MiB)` before the first byte, the first Block of `helloXz`… -/
+example : preLimit MEMUSAGE_BASE UINT64_MAX [.abs 1048576] = 1048576
+    ∧ preLimit MEMUSAGE_BASE 1 [.abs 0, .abs 32767, .needed, .abs 33554432] = 33554432
+    ∧ (({ memlimit := 1 } : AutoPending).setAll [.abs 0, .abs 32767, .needed, .abs 33554432]).subLimit = 33554432 := by decide
 
 end XzVerif.C09
